@@ -65,6 +65,7 @@ type Obligation struct {
 	Values      []*Term
 	ValueNames  []string
 	ExpectSat   bool // cover / canary obligations
+	UnreachableOK bool // cover of a return site that the contract declares possibly dead
 	Opaque      map[string]bool
 	Split       []*Term // optional case split conditions (disjoint, exhaustive) used on unknown
 	Pos         token.Position
@@ -611,12 +612,11 @@ func (x *Exec) allocRef(st *State, what string) *Term {
 	}
 	c := x.c
 	r := c.Fresh("new_"+what, SInt)
-	al := x.heapGet(st, "alloc", SArr(SInt, SBool))
-	// bump allocation: a new root lies above everything that exists (ghost.brk), and the next
-	// allocation lies above all interior addresses of this object (three nesting levels)
+	// bump allocation: a new root lies above everything that exists (the frontier ghost.brk), and
+	// the next allocation lies above all interior addresses of this object (three nesting levels).
+	// "allocated" means below the frontier; no allocation set is kept.
 	brk := x.heapGet(st, "ghost.brk", SInt)
-	x.assumeGlobal(st, c.And(c.Gt(r, c.Int(embN*embN)), c.Eq(c.Mod(r, c.Int(embN)), c.Int(0)), c.Not(c.Select(al, r)), c.Ge(r, brk)))
-	x.heapSet(st, "alloc", c.Store(al, r, c.True()))
+	x.assumeGlobal(st, c.And(c.Gt(r, c.Int(embN*embN)), c.Eq(c.Mod(r, c.Int(embN)), c.Int(0)), c.Ge(r, brk)))
 	n3 := c.Int(embN * embN * embN)
 	x.heapSet(st, "ghost.brk", c.Add(c.Mul(r, n3), n3))
 	return r
@@ -626,10 +626,31 @@ func (x *Exec) allocRef(st *State, what string) *Term {
 // entry frontier if it was read from an untouched entry component.
 func (x *Exec) belowBrk(st *State, t *Term) *Term {
 	c := x.c
-	if isEntryRead(t) {
-		return c.Lt(t, c.Const("H0_ghost.brk", SInt))
+	now := c.Lt(t, x.heapGet(st, "ghost.brk", SInt))
+	if r := entryReadIndex(t); r != nil {
+		// a value stored in an object that existed at entry is an entry value
+		brk0 := c.Const("H0_ghost.brk", SInt)
+		return c.And(now, c.Implies(c.Lt(embRoot(r), brk0), c.Lt(t, brk0)))
 	}
-	return c.Lt(t, x.heapGet(st, "ghost.brk", SInt))
+	return now
+}
+
+// entryReadIndex: for select(H0_x, r) or select(select(H0_x, r), i) the object reference r; else nil.
+func entryReadIndex(t *Term) *Term {
+	if t.kind != kApp || t.op != "select" {
+		return nil
+	}
+	a := t.args[0]
+	if a.kind == kConst && strings.HasPrefix(a.op, "H0_") {
+		if t.args[1].sort == SInt {
+			return t.args[1]
+		}
+		return nil
+	}
+	if a.kind == kApp && a.op == "select" && a.args[0].kind == kConst && strings.HasPrefix(a.args[0].op, "H0_") && a.args[1].sort == SInt {
+		return a.args[1]
+	}
+	return nil
 }
 
 func isEntryRead(t *Term) bool {
@@ -640,8 +661,7 @@ func isEntryRead(t *Term) bool {
 }
 
 func (x *Exec) isAlloc(st *State, r *Term) *Term {
-	al := x.heapGet(st, "alloc", SArr(SInt, SBool))
-	return x.c.Select(al, r)
+	return x.c.Lt(embRoot(r), x.heapGet(st, "ghost.brk", SInt))
 }
 
 // noteRead adds type-invariant facts about a value just read from a symbolic source.
@@ -663,8 +683,7 @@ func (x *Exec) noteRead(st *State, t *Term, typ types.Type) {
 	case *types.Pointer, *types.Map:
 		x.rangeFacts[t.id] = true
 		// references read from the heap are nil or allocated (Go memory safety), never negative
-		al := x.heapGet(st, "alloc", SArr(SInt, SBool))
-		x.assumeGlobal(st, x.c.And(x.c.Ge(t, x.c.Int(0)), x.c.Or(x.c.Eq(t, x.c.Int(0)), x.c.Select(al, embRoot(t))), x.belowBrk(st, t)))
+		x.assumeGlobal(st, x.c.And(x.c.Ge(t, x.c.Int(0)), x.belowBrk(st, t)))
 	}
 }
 
@@ -690,8 +709,7 @@ func (x *Exec) noteSlice(st *State, v Val) {
 	}
 	// the backing array of a slice reachable from the state exists (nil or allocated)
 	if v.Arr.kind != kIntLit {
-		al := x.heapGet(st, "alloc", SArr(SInt, SBool))
-		f = c.And(f, c.Or(c.Eq(v.Arr, c.Int(0)), c.Select(al, embRoot(v.Arr))), x.belowBrk(st, v.Arr))
+		f = c.And(f, x.belowBrk(st, v.Arr))
 	}
 	x.assumeGlobal(st, f)
 }
